@@ -45,15 +45,15 @@ type PeerPlan struct {
 	// + Y y (accept), - N n R r (reject), = L l H h (defer), !0 A0 a0 (accept from offset 0),
 	// !n An with n > 0 (resume from offset n: the peer then judges only the frame structure, the
 	// echoed offset and the checksum - what a resumed transfer carries is not settled by the documents).
-	Answers    map[string]string `json:"answers"`
-	BlockSize  int               `json:"block_size"` // 0 = PRNG 1..256 per data block, k = fixed
-	Comments   int               `json:"comments"`   // 0 none, 1 "; text" lines, 2 also ;PM: lines
-	EarlyFQ    bool              `json:"early_fq"`
+	Answers   map[string]string `json:"answers"`
+	BlockSize int               `json:"block_size"` // 0 = PRNG 1..256 per data block, k = fixed
+	Comments  int               `json:"comments"`   // 0 none, 1 "; text" lines, 2 also ;PM: lines
+	EarlyFQ   bool              `json:"early_fq"`
 	// CMSHangup: what the Winlink CMS does instead of turning the session over after its last block: when it has nothing
 	// more pending (and, here, the station has nothing more either) it sends FQ right behind its last frame and hangs
 	// up without waiting for the station's next word. The station's own FF may then meet a closed link.
-	CMSHangup bool `json:"cms_hangup,omitempty"`
-	DupInBlock bool              `json:"dup_in_block"`
+	CMSHangup  bool `json:"cms_hangup,omitempty"`
+	DupInBlock bool `json:"dup_in_block"`
 	// HoldFirst: in its first turn the peer says FF although it has traffic (as if the traffic arrived a
 	// moment later), provided the station still has messages to send; it offers its messages from its next turn on.
 	HoldFirst   bool `json:"hold_first,omitempty"`
